@@ -54,6 +54,8 @@ const WD: Duration = Duration::from_secs(900);
 struct Def {
     /// (family, number of jobs)
     parts: Vec<(&'static str, usize)>,
+    /// programs of each part to re-run under valgrind memcheck (quick, thorough); 0 = no sanitizer lane
+    memcheck: (usize, usize),
     clauses: Vec<&'static str>,
     rule: &'static str,
     trusted: Vec<&'static str>,
@@ -62,9 +64,23 @@ struct Def {
 }
 
 fn def(prop: &str, tier: u8) -> Option<Def> {
+    // programs per family re-run under valgrind memcheck (quick, thorough): the properties whose
+    // workloads drive loom's unsafe paths (unwinding through coroutines and guards, raw pointers in
+    // sync::Arc, alloc tracking, transmuted borrows of statics, raw wakers, state reuse across models)
+    let mc: (usize, usize) = match prop {
+        "C05" => (48, 600),
+        "C06" => (96, 3000),
+        "C10" => (64, 2000),
+        "C11" => (64, 2000),
+        "C16" => (0, 32),
+        "C17" => (96, 2000),
+        "C20" => (32, 400),
+        _ => (0, 0),
+    };
     let path_trusted = vec!["harness/src/pathmon.rs (trie monitor)", "loom feature verif-hooks (read-only snapshot of Path.branches at the end of every iteration)", "harness/src/lit.rs interpreter"];
     Some(match prop {
         "C01" => Def {
+            memcheck: mc,
             parts: vec![("lit", fam_lit::total(prop, tier)), ("sync", fam_sync::total(prop, tier))],
             clauses: vec!["missing_sc", "unexpected_panic", "missing_outcome", "missed_deadlock", "loom_internal_panic", "process_died"],
             rule: "sync part: every 2-thread x <= 2-op (thorough 3) program over a mutex, try_lock, a SeqCst atomic and join + seeded random programs over mutexes, rwlock, condvar, Notify, channel, park/unpark, join, atomics (2-4 threads); the reference machine enumerates every interleaving, every reference result (or the deadlock) must be produced. litmus part: classic shapes + every 2-thread x 2-op SeqCst program over 2 locations + every 3-thread 1-op RMW/CAS program + seeded random programs (2-4 threads, 1-3 locations, <= 8 memory events); a program is non-trivial when two threads touch a location one of them writes AND the SC reference has >= 2 outcomes; distinct = distinct program texts",
@@ -73,6 +89,7 @@ fn def(prop: &str, tier: u8) -> Option<Def> {
             min_nontrivial: 100,
         },
         "C02" | "C03" => Def {
+            memcheck: mc,
             parts: vec![("lit", fam_lit::total(prop, tier))],
             clauses: if prop == "C02" { vec!["missing_strong", "unexpected_panic"] } else { vec!["forbidden_weak", "unexpected_panic"] },
             rule: "classic litmus shapes in every ordering assignment + every 2-thread x 2-op program over one location (loads/stores/swaps in every ordering; thorough: plus fences) + seeded random programs (2-4 threads, 1-3 locations, every ordering, fences, swap/CAS/fetch_add, <= 8 memory events, <= 6 stores per location); non-trivial = two threads touch a location one of them writes AND the reference allows >= 2 outcomes; distinct = distinct program texts",
@@ -81,6 +98,7 @@ fn def(prop: &str, tier: u8) -> Option<Def> {
             min_nontrivial: 100,
         },
         "C14" => Def {
+            memcheck: mc,
             parts: vec![("path", fam_path::total(prop, tier))],
             clauses: vec!["path_repeat", "path_not_dfs", "path_prefix", "path_kind", "path_order", "path_incomplete", "path_count", "unexpected_panic"],
             rule: "classic litmus shapes + seeded random litmus programs; the decision path of every iteration is recorded through the iteration hook and checked online: all sequences distinct, prefix-contiguous (depth-first), alternatives taken in listed order, nothing left unexplored, hook calls = iterations; non-trivial = the model ran >= 2 iterations",
@@ -89,6 +107,7 @@ fn def(prop: &str, tier: u8) -> Option<Def> {
             min_nontrivial: 100,
         },
         "C15" => Def {
+            memcheck: mc,
             parts: vec![("path", fam_path::total(prop, tier))],
             clauses: vec!["preemption_bound_exceeded", "bounded_not_subset", "bounded_not_monotone", "bounded_full_differs", "path_repeat", "path_not_dfs", "path_order", "unexpected_panic"],
             rule: "each program is run unbounded and with preemption_bound = 0..6 and a bound >= its number of operations (9 model runs); preemptions are counted independently of loom's counter, from the decision paths and from the client-boundary log; result sets compared across bounds; non-trivial = >= 2 threads with operations and >= 2 unbounded results",
@@ -97,6 +116,7 @@ fn def(prop: &str, tier: u8) -> Option<Def> {
             min_nontrivial: 50,
         },
         "C19" => Def {
+            memcheck: mc,
             parts: vec![("path", fam_path::total(prop, tier))],
             clauses: vec!["ctrl_explored_in_region", "ctrl_not_subset", "ctrl_lost_outside_region", "ctrl_region_not_marked", "max_branches", "max_permutations", "max_duration", "max_threads", "path_repeat", "path_not_dfs", "path_order", "unexpected_panic"],
             rule: "each program is run unrestricted and with six placements of stop_exploring/explore/skip_branch/expect_explicit_explore, with max_branches = longest path - 1 / exactly the longest path, eight (max_permutations, checkpoint interval) pairs around the exact iteration count, max_duration 0 and 1 h; non-trivial = >= 2 iterations and longest path >= 2",
@@ -105,6 +125,7 @@ fn def(prop: &str, tier: u8) -> Option<Def> {
             min_nontrivial: 50,
         },
         "C04" => Def {
+            memcheck: mc,
             parts: vec![("race", fam_race::total(tier)), ("sync", fam_sync::total(prop, tier))],
             clauses: vec!["missed_race", "false_race", "unexpected_panic", "loom_internal_panic", "process_died"],
             rule: "atomics part: a cell written by one thread and accessed by another behind an await loop, connected by every store/load ordering pair over one hop, two hops through a relay, an RMW in between, a same-thread relaxed store, fence pairs of every strength, spawn/join edges, unsync_load against atomic stores (enumerated) + random litmus programs with cell accesses; sync part: cells combined with mutex/rwlock hand-over, channel messages, join, park/unpark, Notify, condvar (pinned + random). must_report = some consistent execution under the strong reading races; must_not_report = none under the weak reading; the gap decides nothing. non-trivial = oracle verdict outside the gap and >= 2 threads with operations",
@@ -113,6 +134,7 @@ fn def(prop: &str, tier: u8) -> Option<Def> {
             min_nontrivial: 100,
         },
         "C05" => Def {
+            memcheck: mc,
             parts: vec![("sync", fam_sync::total(prop, tier))],
             clauses: vec!["false_deadlock", "missed_deadlock", "loom_internal_panic", "process_died", "wrong_failure"],
             rule: "every 2-thread x <= 3-op program over two mutexes, park/unpark and join + pinned shapes of the property text + seeded random programs (2-4 threads over mutexes, rwlock, condvar, Notify, channel, park/unpark, join; 15 % share their objects through loom::sync::Arc); the reference machine decides can_deadlock by explicit-state search; non-trivial = >= 2 threads with operations and >= 2 reference terminals or >= 2 loom iterations",
@@ -121,6 +143,7 @@ fn def(prop: &str, tier: u8) -> Option<Def> {
             min_nontrivial: 100,
         },
         "C10" => Def {
+            memcheck: mc,
             parts: vec![("arc", arcs::total(prop, tier)), ("sync", fam_sync::total(prop, tier))],
             clauses: vec!["false_leak", "missed_leak", "loom_internal_panic", "process_died"],
             rule: "arc part: loom::sync::Arc handles cloned, dropped, forgotten, dropped only when a flag was not seen (schedule-dependent leak), try_unwrap, into_raw/from_raw round trips, increment/decrement_strong_count, one alloc::Track value per thread dropped or forgotten, alloc/dealloc pairs and orphans, in 2-3 threads (every handle created before the first spawn); sync part: messages left queued with the receiver dropped (drained) or forgotten. loom must end with a leak panic of a kind the reference's live set can reach, and with none otherwise. non-trivial = >= 2 threads with operations and >= 2 reference terminals or loom iterations",
@@ -129,6 +152,7 @@ fn def(prop: &str, tier: u8) -> Option<Def> {
             min_nontrivial: 100,
         },
         "C11" => Def {
+            memcheck: mc,
             parts: vec![("arc", arcs::total(prop, tier))],
             clauses: vec!["replay_invalid", "drop_count", "extra_outcome", "missing_outcome", "false_race", "false_leak", "missed_leak", "loom_internal_panic", "process_died", "false_deadlock"],
             rule: "every 2-thread program with <= 2 (thorough 3) handle operations per thread over clone/drop/strong_count/get_mut + pinned shapes (try_unwrap races, raw round trips, increment/decrement) + random programs (2-3 threads, <= 8 handle operations); every returned count / Option / Result is replayed on a reference-count machine in log order, the payload's destructor must run exactly once per iteration, result sets must equal the reference's, and the payload (read through every handle before its drop, written by the destructor) must not be reported as racing. non-trivial = >= 2 threads with operations and >= 2 reference terminals or loom iterations",
@@ -137,6 +161,7 @@ fn def(prop: &str, tier: u8) -> Option<Def> {
             min_nontrivial: 100,
         },
         "C06" => Def {
+            memcheck: mc,
             parts: vec![("sync", fam_sync::total(prop, tier)), ("arc", arcs::total(prop, tier))],
             clauses: vec!["missed_failure", "missed_deadlock", "missed_race", "missed_leak", "wrong_failure", "false_failure", "false_deadlock", "false_race", "false_leak", "loom_internal_panic", "process_died", "dirty_after_failure", "unexpected_branch_limit"],
             rule: "programs over all blocking primitives, SeqCst atomics and cells with injected user assertions (unconditional, or conditioned on the preceding try_lock/try_read/try_write/try_recv result so that the failing iteration is not the first): raised in any thread, while holding mutex / rwlock guards, while other threads are blocked in lock/recv/wait/park/join, before a spawned thread ever ran, with the objects behind std or loom::sync::Arc; pinned shapes of the property text. The reference machine decides which failures are reachable; loom::model must unwind with one of them (and return normally when none is), the worker process must survive, and a probe model run afterwards in the same process must behave exactly as in a fresh process. non-trivial = >= 2 threads with operations and >= 2 reference terminals or loom iterations",
@@ -145,6 +170,7 @@ fn def(prop: &str, tier: u8) -> Option<Def> {
             min_nontrivial: 100,
         },
         "C07" | "C08" | "C09" => Def {
+            memcheck: mc,
             parts: vec![("sync", fam_sync::total(prop, tier))],
             clauses: vec!["replay_invalid", "extra_outcome", "missing_outcome", "false_race", "false_deadlock", "missed_deadlock", "loom_internal_panic", "false_leak", "missed_leak", "process_died", "missed_race"],
             rule: "enumerated core of the property's primitives (all 2-thread programs up to 3-4 ops) + pinned shapes + seeded random programs; every iteration's client-boundary log is replayed on the reference machine (each return must be enabled and carry the value the specification gives at that instant), outcome sets are compared with the reference in both directions, cells accessed under the primitives' ordering guarantees must not be reported as races; non-trivial = >= 2 threads with operations and >= 2 reference terminals or loom iterations",
@@ -153,6 +179,7 @@ fn def(prop: &str, tier: u8) -> Option<Def> {
             min_nontrivial: 100,
         },
         "C12" => Def {
+            memcheck: mc,
             parts: vec![("diff", fam_diff::total(tier))],
             clauses: vec!["value_mismatch"],
             rule: "for each of AtomicU8..U64/Usize, I8..I64/Isize, Bool, Ptr: seeded random operation sequences (quick 60, thorough 120 ops) applied side by side to the loom atomic (inside a single-threaded loom::model) and the std atomic: load, store, swap, compare_exchange(_weak), compare_and_swap, fetch_add/sub/and/nand/or/xor/max/min, fetch_update with a closure that declines chosen values, with_mut, unsync_load, into_inner/new; operands boundary-biased (0, 1, 2, MAX, MAX-1, MIN, MIN+1, -1, sign bit, values >= 2^32, random); every valid ordering; every return value and the final content compared; one job = 50 sequences of one type; non-trivial = the batch exercised >= 5 operation kinds; one iteration per model is asserted",
@@ -161,6 +188,7 @@ fn def(prop: &str, tier: u8) -> Option<Def> {
             min_nontrivial: 12,
         },
         "C17" => Def {
+            memcheck: mc,
             parts: vec![("statics", fam_statics::total(tier))],
             clauses: vec!["static_semantics", "static_init_not_ordered", "unexpected_panic"],
             rule: "two loom::thread_local! keys and two loom::lazy_static! values declared in the harness whose init and Drop bump std counters: every 2-thread program with <= 2 static accesses per thread (with, nested with, try_with, lazy deref), all single-thread lists, 4-thread first-access races, + random programs (1-4 threads, <= 3 accesses, SeqCst atomics in between so that first-access races are explored, main joining before or after its own accesses). Per iteration (at the iteration hook): thread-local init count = number of threads touching the key, drops = inits, values private to their thread, try_with on the key under destruction = AccessError, lazy init count = 1 iff touched, one instance address for all threads, dropped by the end of the iteration and re-initialised in the next; a causality panic on the cell written inside init = missing init -> access edge. non-trivial = the program touches a static",
@@ -169,6 +197,7 @@ fn def(prop: &str, tier: u8) -> Option<Def> {
             min_nontrivial: 100,
         },
         "C20" => Def {
+            memcheck: mc,
             parts: vec![("fut", fam_fut::total(tier))],
             clauses: vec!["lost_wakeup", "missed_deadlock", "block_on_no_return", "spurious_poll", "wrong_waker", "unexpected_panic"],
             rule: "one scripted future (flag in a loom AtomicBool; waker published through future::AtomicWaker or through a slot in a loom Mutex; with or without the re-check after registering) driven by future::block_on, woken by 1-2 threads running every script of <= 3 steps over set-flag / wake / wake_by_ref / drop-the-waker / yield (enumerated) + random scripts; an explicit-state model of `loop { poll; wait }` decides whether a deadlock is owed (reachable without the spurious return) or allowed; block_on must return the output in every iteration otherwise; polls per iteration <= wakes + 2; three probes register 1-3 wakers with unique ids in an AtomicWaker while another thread calls wake(). non-trivial = at least one waking thread and an iteration observed (a deadlock owed by the model is reported in the first iteration)",
@@ -177,6 +206,7 @@ fn def(prop: &str, tier: u8) -> Option<Def> {
             min_nontrivial: 50,
         },
         "C18" => Def {
+            memcheck: mc,
             parts: vec![("spin", fam_spin::total(tier))],
             clauses: vec!["spin_no_progress", "spin_missing_exit", "spin_cut_off", "spin_forbidden_exit", "unexpected_panic"],
             rule: "programs with await loops (`loop { v = x.load(o); if v != 0 { break } yield_now() }`, a quarter with hint::spin_loop) at any position of any thread, never two threads spinning at once: flag + data, awaited location written twice, two writers, two waiters in a chain, in every store/load ordering pair (enumerated) + random litmus programs with one inserted await and (7 of 8) an inserted store that establishes it; three never-true loops. The reference treats an await as a blocking read of any allowed non-zero value (RC11 strong for `must explore`, weak for `must not produce`); max_branches lowered to 300. non-trivial = the reference allows >= 2 outcomes, or the condition can stay false",
@@ -185,6 +215,7 @@ fn def(prop: &str, tier: u8) -> Option<Def> {
             min_nontrivial: 30,
         },
         "C16" => Def {
+            memcheck: mc,
             parts: vec![("iso", fam_iso::total(tier))],
             clauses: vec!["differs_after_failed_models", "differs_under_concurrent_models", "iteration_state_leaks", "unexpected_panic"],
             rule: "each job takes a random litmus program and a random blocking program plus an identity model (ThreadIds of main and two children, an atomic and a channel that must start at their initial state in every iteration); their complete records (per-iteration outcome sequence, execution orders, decision paths, iteration counts, identity lines) are computed in a fresh process, again in the worker process after 2-6 models that failed (lock-order deadlock incl. loom::sync::Arc-shared, data race, Arc + allocation leak, branch limit inside a spin loop, user panic while others are blocked, panic in a payload destructor, leaked messages) and after all earlier jobs of the shard, and again while 3-6 (thorough 3-15) other OS threads run other models with injected yields/sleeps; all three must be identical. non-trivial = one of the two programs runs >= 2 iterations",
@@ -193,6 +224,7 @@ fn def(prop: &str, tier: u8) -> Option<Def> {
             min_nontrivial: 20,
         },
         "C13" => Def {
+            memcheck: mc,
             parts: vec![("path", fam_path::total(prop, tier))],
             clauses: vec!["nondeterministic", "checkpoint_resume", "checkpoint_failure_replay", "unexpected_panic"],
             rule: "programs with 3..=120 (thorough 400) iterations; per program: two runs in one process and two fresh processes compared (outcomes, execution orders, decision paths); every stop point k in 1..N x intervals 1,2,3,7 and a random one through a real checkpoint file; process aborts at the start / in the middle of iteration k resumed in a fresh process; three failing iterations (first, middle, last) reloaded from their checkpoint; non-trivial = program in the iteration range",
@@ -243,7 +275,74 @@ pub fn check(prop: &str, tier: u8, seed: u64) -> i32 {
     if stop_pairs > 0 {
         extra.insert("stop_resume_pairs".into(), json!(stop_pairs));
     }
-    let clauses: Vec<&str> = d.clauses.clone();
+    // sanitizer lane
+    let mut sanitizer = Value::Null;
+    let want = if tier == 0 { d.memcheck.0 } else { d.memcheck.1 };
+    if want > 0 {
+        let mut lanes = Vec::new();
+        for (fam, total) in &d.parts {
+            if let Some(rep) = run_memcheck(fam, prop, tier, seed, *total, want) {
+                if rep.errors > 0 {
+                    let mut r = Rec::new(recs.len());
+                    r.prog = format!("memcheck lane over {} programs of family {}", rep.programs, fam);
+                    r.hash = fnv(&r.prog);
+                    r.v("memcheck_error", "", format!("{} valgrind memcheck reports; first: {} ; logs in {}", rep.errors, rep.first_error, rep.log_dir));
+                    recs.push(r);
+                }
+                lanes.push(json!({"tool": "valgrind memcheck (leak check off)", "family": fam, "programs_requested": rep.programs, "programs_completed_under_valgrind": rep.completed, "valgrind_processes": rep.processes, "processes_died": rep.died, "error_reports": rep.errors, "wall_s": rep.wall_s, "violations_seen_in_sample": rep.violations_in_sample}));
+            }
+        }
+        sanitizer = Value::Array(lanes);
+    }
+    // ThreadSanitizer lane (C16, thorough): the only real OS-thread concurrency in loom is several models running at once
+    if prop == "C16" {
+        if let Ok(bin) = std::env::var("LV_TSAN_BIN") {
+            if std::path::Path::new(&bin).exists() {
+                let dir = verif_root().join("work").join("tsan-C16");
+                let _ = std::fs::remove_dir_all(&dir);
+                let _ = std::fs::create_dir_all(&dir);
+                let t1 = Instant::now();
+                let n = if tier == 0 { 6 } else { 48 };
+                let out = std::process::Command::new(&bin)
+                    .args(["tsan-lane", &seed.to_string(), &n.to_string()])
+                    .env("TSAN_OPTIONS", format!("halt_on_error=0 exitcode=0 report_signal_unsafe=0 log_path={}", dir.join("report").display()))
+                    .stderr(std::process::Stdio::null())
+                    .output();
+                let mut reports = 0;
+                let mut first = String::new();
+                if let Ok(rd) = std::fs::read_dir(&dir) {
+                    for e in rd.flatten() {
+                        if let Ok(s) = std::fs::read_to_string(e.path()) {
+                            reports += s.matches("WARNING: ThreadSanitizer").count();
+                            if first.is_empty() {
+                                first = s.lines().take(25).collect::<Vec<_>>().join("\\n");
+                            }
+                        }
+                    }
+                }
+                let stdout = out.as_ref().map(|o| String::from_utf8_lossy(&o.stdout).to_string()).unwrap_or_default();
+                let done = stdout.lines().find(|l| l.starts_with("TSAN-LANE-DONE")).unwrap_or("").to_string();
+                let lane_viol = stdout.lines().filter(|l| l.starts_with("TSAN-LANE-VIOLATION")).count();
+                if reports > 0 || lane_viol > 0 || done.is_empty() {
+                    let mut r = Rec::new(recs.len());
+                    r.prog = "ThreadSanitizer lane: isolation workload with models on several OS threads".into();
+                    r.hash = fnv(&r.prog);
+                    if done.is_empty() {
+                        r.status = "inconclusive:tsan-lane-did-not-finish".into();
+                    } else {
+                        r.v("tsan_report", "", format!("{} ThreadSanitizer reports, {} record mismatches; first report: {}", reports, lane_viol, first));
+                    }
+                    recs.push(r);
+                }
+                let mut lanes = sanitizer.as_array().cloned().unwrap_or_default();
+                lanes.push(json!({"tool": "ThreadSanitizer (nightly, -Zbuild-std)", "jobs": n, "summary": done, "reports": reports, "wall_s": t1.elapsed().as_secs_f64()}));
+                sanitizer = Value::Array(lanes);
+            }
+        }
+    }
+    let mut clauses: Vec<&str> = d.clauses.clone();
+    clauses.push("memcheck_error");
+    clauses.push("tsan_report");
     finish(
         Check {
             prop,
@@ -257,7 +356,7 @@ pub fn check(prop: &str, tier: u8, seed: u64) -> i32 {
             samples: samples_from(&recs, 5),
             exhaustive: false,
             min_nontrivial: d.min_nontrivial,
-            sanitizer: Value::Null,
+            sanitizer,
         },
         &recs,
         t0,
